@@ -27,14 +27,18 @@ type Informer struct {
 	// real shared informer allow: the cache is updated first, listeners run later.
 	LagHandlers map[int]bool
 	lpending    map[int][]Notification
+	// Tombstones: deletions reach the handlers as cache.DeletedFinalStateUnknown (the watch was broken
+	// and a relist noticed that the object is gone).
+	Tombstones bool
 	// pristine is the serialised form of every cached object as the informer stored it.
 	pristine map[string][]byte
 }
 
 // Notification is one pending call of a lagging listener.
 type Notification struct {
-	Type     EventType
-	Old, Obj runtime.Object
+	Type      EventType
+	Old, Obj  runtime.Object
+	Tombstone bool
 }
 
 var _ cache.SharedIndexInformer = (*Informer)(nil)
@@ -124,12 +128,17 @@ func call(h cache.ResourceEventHandler, n Notification) {
 	case Modified:
 		h.OnUpdate(n.Old, n.Obj)
 	case Deleted:
+		if n.Tombstone {
+			// what a handler gets when the deletion was only noticed by a relist after a broken watch
+			h.OnDelete(cache.DeletedFinalStateUnknown{Key: ObjKey(n.Obj), Obj: n.Obj})
+			return
+		}
 		h.OnDelete(n.Obj)
 	}
 }
 
 func (i *Informer) notify(t EventType, old, obj runtime.Object) {
-	n := Notification{Type: t, Old: old, Obj: obj}
+	n := Notification{Type: t, Old: old, Obj: obj, Tombstone: t == Deleted && i.Tombstones}
 	for idx, h := range i.handlers {
 		if i.LagHandlers[idx] {
 			if i.lpending == nil {
